@@ -129,7 +129,7 @@ fn make_case_once(seed: u64, run: u64, r: &mut Rng) -> Option<Case> {
     let start_line = lines.iter().position(|l| code_part(l).trim_start().starts_with("start:")).unwrap_or(0);
     let mut spec = DiagSpec::default();
     let kind = r.below(100);
-    if kind < 30 {
+    if kind < 28 {
         // a foreign, wrong statement spliced in somewhere after the entry point
         let at = r.urange(start_line + 1, lines.len());
         let stmt = *r.pick(&FOREIGN);
@@ -145,7 +145,7 @@ fn make_case_once(seed: u64, run: u64, r: &mut Rng) -> Option<Case> {
         spec.lines = vec![at + 1];
         spec.col = Some((indent.len(), indent.len() + body.len()));
         spec.target = Some(at);
-    } else if kind < 55 {
+    } else if kind < 50 {
         // one byte of a statement turned into a byte no token can contain
         let mut cands: Vec<(usize, usize)> = Vec::new();
         for (i, l) in lines.iter().enumerate() {
@@ -195,7 +195,7 @@ fn make_case_once(seed: u64, run: u64, r: &mut Rng) -> Option<Case> {
         let _ = ts;
         spec.col = Some((first.min(j), j));
         spec.target = Some(i);
-    } else if kind < 70 {
+    } else if kind < 64 {
         // a line torn off after a comma: the offending token is whatever comes next
         let mut cands = Vec::new();
         for (i, l) in lines.iter().enumerate() {
@@ -223,18 +223,24 @@ fn make_case_once(seed: u64, run: u64, r: &mut Rng) -> Option<Case> {
             None => (i + 1..=lines.len() + 1).collect(),
         };
         spec.target = Some(i);
-    } else if kind < 80 {
+    } else if kind < 72 {
         // the file ends inside its last statement
-        let last = (0..lines.len()).rev().find(|k| !code_part(&lines[*k]).trim().is_empty())?;
+        let mut last = (0..lines.len()).rev().find(|k| !code_part(&lines[*k]).trim().is_empty())?;
         if last <= start_line {
             return None;
         }
         lines.truncate(last + 1);
+        {
+            // make sure the last statement is one that can be cut after a comma
+            let c = code_part(&lines[last]);
+            if c.rfind(',').is_none() || c.contains('"') || c.contains('(') {
+                let ind = " ".repeat(r.urange(0, 6));
+                lines.push(format!("{}{}", ind, r.pick(&["add ax, bx", "mov word [bx, 4], si", "xchg dx, di", "MOV AL, 7"])));
+                last += 1;
+            }
+        }
         let c = code_part(&lines[last]).to_owned();
         let p = c.rfind(',')?;
-        if c.contains('"') || c.contains('(') {
-            return None;
-        }
         lines[last] = c[..p + 1].to_owned();
         final_newline = r.chance(50);
         if r.chance(30) {
@@ -244,6 +250,27 @@ fn make_case_once(seed: u64, run: u64, r: &mut Rng) -> Option<Case> {
         spec.kind = "cut_in_last_statement".to_owned();
         spec.lines = (last + 1..=lines.len() + 1).collect();
         spec.target = Some(last);
+    } else if kind < 76 {
+        // a wrong statement produced by a macro that is itself used inside another macro: the
+        // offending token, as far as the source file goes, is the outermost use
+        let depth = r.urange(1, 3);
+        let bad = *r.pick(&["mov al, q", "int q", "mov ax, q, q", "add q", "call q"]);
+        let mut defs = vec![format!("macro zz_e0(q) -> inc si {} <-", bad)];
+        for d in 1..depth {
+            defs.push(format!("macro zz_e{}(q) -> mov dx, 1 zz_e{}(q) inc di <-", d, d - 1));
+        }
+        for (k, d) in defs.iter().enumerate() {
+            lines.insert(start_line + k, d.clone());
+        }
+        let start_line = start_line + defs.len();
+        let at = r.urange(start_line + 1, lines.len());
+        let indent = if r.chance(50) { " ".repeat(r.urange(1, 8)) } else { String::new() };
+        let body = format!("zz_e{}(300)", depth - 1);
+        lines.insert(at, format!("{}{}", indent, body));
+        spec.kind = "error_in_nested_macro".to_owned();
+        spec.lines = vec![at + 1];
+        spec.col = Some((indent.len(), indent.len() + body.len()));
+        spec.target = Some(at);
     } else if kind < 84 {
         // a jump to nowhere that sits in a macro body: the offending token, as far as the source
         // file goes, is the (outermost) use of that macro
